@@ -163,6 +163,15 @@ func editContext(a, b string) string {
 	}
 }
 
+// afterCtx: separator edits are independent of each other, so what precedes the first one is a
+// useful part of the signature; comma and parenthesis variants are told apart by the message.
+func afterCtx(kind string, c layoutCase) string {
+	if strings.HasPrefix(kind, "gaps") {
+		return ":after:" + editContext(c.A, c.B)
+	}
+	return ""
+}
+
 func checkLayout(c layoutCase) *pk.Failure {
 	pa, pb := parseRepo(c.A), parseRepo(c.B)
 	for _, p := range []parsed{pa, pb} {
@@ -182,12 +191,12 @@ func checkLayout(c layoutCase) *pk.Failure {
 		if pb.clean() {
 			detail = shortMsg(pa.errText())
 		}
-		return pk.Failf("layout", "layout:"+kind+":status:"+detail+":after:"+editContext(c.A, c.B), "error status differs (%s vs %s) [%s]\nA errors:\n%sB errors:\n%sA:\n%s\nB:\n%s",
+		return pk.Failf("layout", "layout:"+kind+":status:"+detail+afterCtx(kind, c), "error status differs (%s vs %s) [%s]\nA errors:\n%sB errors:\n%sA:\n%s\nB:\n%s",
 			pa.status(), pb.status(), c.Kind, pa.errText(), pb.errText(), c.A, c.B)
 	}
 	ta, tb := canonProgram(pa.prog), canonProgram(pb.prog)
 	if ta != tb {
-		return pk.Failf("layout", "layout:"+kind+":tree:after:"+editContext(c.A, c.B), "trees differ [%s] %s\nA:\n%s\nB:\n%s", c.Kind, firstDiff(ta, tb), c.A, c.B)
+		return pk.Failf("layout", "layout:"+kind+":tree"+afterCtx(kind, c), "trees differ [%s] %s\nA:\n%s\nB:\n%s", c.Kind, firstDiff(ta, tb), c.A, c.B)
 	}
 	return nil
 }
@@ -285,7 +294,7 @@ func TestTablePairsTriples(t *testing.T) {
 func TestTrees(t *testing.T) {
 	pk.SkipIfReplay(t)
 	rapid.Check(t, func(rt *rapid.T) {
-		depth := rapid.IntRange(1, 8).Draw(rt, "depth")
+		depth := []int{1, 2, 3, 4, 4, 5, 5, 6, 6, 7, 7, 8, 8, 8}[rapid.IntRange(0, 13).Draw(rt, "depth")]
 		ctx := pick(rt, "ctx", ctxs)
 		tree := genRoot(rt, depth, ctx == "stmt" || ctx == "tail")
 		want := tree.sexp()
@@ -316,7 +325,10 @@ func TestTrees(t *testing.T) {
 
 func gateOpts() sepOpts { return sepOpts{noTab: pk.GateOpen("ws-tab")} }
 
-// lexemes after which the repository's lexer is known (open finding) to swallow one character
+// Generator gates (closed only while known_findings.json lists an open finding with that gate):
+//
+//	ws-tab      no TAB in separators           (was C06-001, fixed)
+//	op-swallow  whitespace first after | & ...  (was C06-002/003, fixed)
 func swallows(lexeme string) bool {
 	return strings.HasSuffix(lexeme, "|") || strings.HasSuffix(lexeme, "&") || lexeme == "|=" || lexeme == "&="
 }
@@ -480,6 +492,7 @@ func TestReferenceExamples(t *testing.T) {
 		{"a << b + c", "(<< a (+ b c))"},
 		{"a * b as int", "(* a (as b int))"},
 		{"a ** b as int", "(as (** a b) int)"},
+		{"a as [int] < b as ?[str] ** 2", "(< (as a [int]) (** (as b ?[str]) 2))"},
 	} {
 		n, err := refParse(ex[0])
 		if err != nil {
